@@ -26,6 +26,9 @@ for prop in props:
             meta = json.load(open(m))
         except Exception:
             continue
+        round_filter = next((a.split("=")[1] for a in sys.argv if a.startswith("--round=")), None)
+        if round_filter and not os.path.dirname(m).endswith("-" + round_filter):
+            continue
         if meta.get("property") == prop:
             patches.append(os.path.join(os.path.dirname(m), "patch.diff"))
     for patch in patches:
